@@ -131,6 +131,8 @@ pub fn enumerated(max_len: usize, batch: usize) -> Vec<KsBatch> {
         // patterns that can match the empty string: a matching line with an EMPTY key is still a key
         (Some("^k(?P<value>[a-z]*)"), None, KS),
         (Some("^[a-z]*"), None, LEX),
+        // `(?<value>…)`: the other spelling of the named group
+        (Some("id:(?<value>[0-9]+)"), Some("numeric"), IDS),
     ];
     let mut specs = vec![];
     for len_cap in 0..=max_len {
@@ -238,7 +240,7 @@ pub fn random_batch() -> BoxedStrategy<KsBatch> {
 }
 
 pub fn run(run: &mut Run) {
-    run.rule = "enumerated: every line sequence of length 0..k (k=4 quick, 5 thorough) over per-configuration alphabets (ordered/equal/prefix-related/indented/blank/numeric-looking lines) x 6 direction spellings x 9 (pattern, format) configurations (two of them with patterns that can match the empty string, so that matching lines with an empty key occur), batched into one file per 400 blocks and run through the real CLI; random: blocks of 6..120 lines (sorted then perturbed by 0..3 swaps; Unicode words; nested block tag lines as keys; numeric with/without pattern). Non-trivial block = at least 2 keys and (an equal or prefix-related adjacent pair, or a skipped line); distinct by (batch, block).".into();
+    run.rule = "enumerated: every line sequence of length 0..k (k=4 quick, 5 thorough) over per-configuration alphabets (ordered/equal/prefix-related/indented/blank/numeric-looking lines) x 6 direction spellings x 10 (pattern, format) configurations (the `value` group in both spellings, `(?P<value>…)` and `(?<value>…)`) (two of them with patterns that can match the empty string, so that matching lines with an empty key occur), batched into one file per 400 blocks and run through the real CLI; random: blocks of 6..120 lines (sorted then perturbed by 0..3 swaps; Unicode words; nested block tag lines as keys; numeric with/without pattern). Non-trivial block = at least 2 keys and (an equal or prefix-related adjacent pair, or a skipped line); distinct by (batch, block).".into();
     run.assumptions = vec![
         "content lines are shell/ruby words, which tree-sitter parses without touching the tag comments (block discovery itself is C03)".into(),
         "numeric keys are plain finite decimals; regexes come from a fixed family with hand-written extractors".into(),
